@@ -720,6 +720,41 @@ pub fn requests_seen() -> u64 {
     JUDGED_ANY.load(Ordering::Relaxed)
 }
 
+/// C09 (cross mode): like C02 it has nothing to say about the returned image alone; its finding is a
+/// destination that does not hold exactly that image (`dest_check`, called by the dump drivers that own
+/// an in-memory destination).
+pub fn c09(_pid: i32, _o: &DumpOpts, _bytes: &[u8]) -> Vec<(String, String)> {
+    Vec::new()
+}
+
+static WATCH_DEST: AtomicBool = AtomicBool::new(false);
+
+pub fn watch_dest(on: bool) {
+    WATCH_DEST.store(on, Ordering::Relaxed);
+}
+
+/// The destination of a successful, fault-free dump must hold exactly the returned image from its
+/// starting position on and nothing beyond it.
+pub fn dest_check(r: &DumpResult, dest: &[u8], start: usize) {
+    if !WATCH_DEST.load(Ordering::Relaxed) {
+        return;
+    }
+    let DumpResult::Ok(img) = r else { return };
+    let what = if dest.len() != start + img.len() {
+        Some(format!("the destination holds {} bytes from the starting position on, the returned image has {}", dest.len().saturating_sub(start), img.len()))
+    } else {
+        (0..img.len()).find(|i| dest[start + i] != img[*i]).map(|i| format!("byte {i} of the returned image is {:#x}, the destination holds {:#x}", img[i], dest[start + i]))
+    };
+    if let Some(m) = what {
+        let host = HOST.read().unwrap_or_else(|e| e.into_inner()).clone();
+        let opts = CUR.with(|c| c.borrow().as_ref().map(|(_, o, _)| o.to_json())).unwrap_or(Value::Null);
+        let mut g = FOUND.lock().unwrap_or_else(|e| e.into_inner());
+        if g.len() < 200 {
+            g.push((format!("cross/{host}/destination-differs-from-returned-image"), format!("[dump made by the {host} explorer, options {opts}] {m}"), json!({"cross_host": host})));
+        }
+    }
+}
+
 /// C01: structure (fault-tolerant: any successful dump).
 pub fn c01(_pid: i32, _o: &DumpOpts, bytes: &[u8]) -> Vec<(String, String)> {
     crate::checks::c01::judge(bytes).into_iter().map(|e| (format!("structure/{}", crate::shapes::classify(&e)), e)).collect()
